@@ -14,8 +14,9 @@ func init() {
 	register(&Prop{
 		ID:        "C20",
 		Level:     "other",
-		Technique: "sibling agreement between the writer tables of NewRecordFormatter/parseNumWriteLayout and the reader tables of parseReadLayout/parseReadSize (name sets, byte counts, byte order, radix, verb -> Record field, text encoding objects); sign-reinterpretation rule for the reader's number stores; ownership rule for RecordReader.buf; assume/guarantee bounds proof of the fixed-width parsers against the guard in RecordReader.next; branch-fact rules for the io.EOF boundary",
+		Technique: "zero-extension rule for the fixed-width decoders; sibling agreement between the writer tables of NewRecordFormatter/parseNumWriteLayout and the reader tables of parseReadLayout/parseReadSize (name sets, byte counts, byte order, radix, verb -> Record field, text encoding objects); sign-reinterpretation rule for the reader's number stores; ownership rule for RecordReader.buf; assume/guarantee bounds proof of the fixed-width parsers against the guard in RecordReader.next; branch-fact rules for the io.EOF boundary",
 		Explanation: "(1) num-layout-agree: for every number layout name accepted by both parseNumWriteLayout and parseReadSize the writer function's emitted byte count (arity of its single append) equals the reader's readKind.size, big/little agree (descending/ascending 8-bit shifts of uint64(n) <-> binary.BigEndian/LittleEndian of the same width; single byte <-> b[0]), hexN writes N/4 nibbles with descending 4-bit shifts through a 16 digit hex alphabet and is read as N/4 bytes with ParseUint base 16, ascii is AppendInt base 10 <-> digit condition + ParseUint/ParseInt base 10 and, because AppendInt prints a sign, the reader must accept a leading '-' and parse signed (violated on the pinned tree: recorded finding), bool is \"true\"/\"false\" on both sides; names of one writer case clause map to one reader class; the accepted name sets differ only by the documented writer-only `hex` (variable width); " +
+			"(1b) zero-extend: every fixed-width reader case stores to the shared 64-bit destination the unsigned decode of exactly the layout's width (binary.{Big,Little}Endian.UintN / b[0] / strconv.ParseUint base 16 with a sufficient bit size), widened only through unsigned conversions at least as wide as the layout - no intermediate signed or narrower conversion, no arithmetic - matching the writer, which emits the low N bits of uint64(n); the sign is reinterpreted only where the consumer converts *dst to the field's signed type (rule 3); a writer that delegates to a width-parameterised helper is classified only for the recognised mask + pad-loop + strconv.AppendUint shape and must clamp the significant-digit count to >= 1 (exactly `width` digits for every value including 0); " +
 			"(2) verb-field-agree: the number/text verbs of NewRecordFormatter and parseReadLayout are compared: the Record field the writer reads for a verb is the field the reader stores for it (T/K/V: the length of the field that the lower-case verb reads with that size variable; H/h: Headers with Key/Value mapped to Key/Value on both sides and the loop bounded by the %H variable; p Partition, o Offset, e LeaderEpoch, x ProducerID, y ProducerEpoch, d Timestamp in milliseconds with the same scale constant); verb sets differ only by the documented writer-only verbs; the reader's size/value bit constants pair up (size bit == value bit << 1); " +
 			"(3) signed-reinterpret: in every reader number store the raw uint64 is converted to a signed integer type before any arithmetic (the writer emits the two's complement of a signed value); " +
 			"(4) text-encoding-agree: text modifiers accepted on both sides map to inverse functions of the same encoding object (base64.StdEncoding Encode/Decode, encoding/hex Encode/Decode, plain append / no decoder); the name sets differ only by the documented base64raw/unpack (writer) and json/re (reader); " +
@@ -100,6 +101,7 @@ type c20w struct { // writer class
 	fn    string
 	pos   token.Pos
 	err   string
+	viol  string // decided violation found while classifying
 }
 
 type c20r struct { // reader class
@@ -111,6 +113,8 @@ type c20r struct { // reader class
 	lit           *ast.FuncLit
 	size          ast.Expr
 	signed, minus bool // ascii: parsed as signed / condition accepts '-'
+	stores        []ast.Expr // right-hand sides stored to *dst by the parser
+	parseBits     int64      // bitSize argument of strconv.ParseUint/ParseInt
 }
 
 func (e *c20env) ruleNumLayouts() {
@@ -173,6 +177,10 @@ func (e *c20env) ruleNumLayouts() {
 		n++
 		if w.err != "" {
 			c.Undecided(rule, cons, w.pos, m, "writer function not classified: "+w.err)
+			continue
+		}
+		if w.viol != "" {
+			c.Fail(rule, cons, w.pos, m, w.viol)
 			continue
 		}
 		if !both {
@@ -247,6 +255,19 @@ func (e *c20env) ruleNumLayouts() {
 			c.Fail(rule, "layout "+name, rnames[name].pos, m, "number layout `"+name+"` is accepted by the reader but not by the formatter (undocumented asymmetry)")
 		}
 	}
+	// zero extension of fixed-width reads (the consumer reinterprets the sign, see signed-reinterpret)
+	nz := 0
+	for _, name := range sortedKeys(rnames) {
+		r := rnames[name]
+		if r.err != "" || (r.kind != "bin" && r.kind != "hex") {
+			continue
+		}
+		nz++
+		why := e.zeroExtended(r)
+		c.Check(why == "", "zero-extend", "layout "+name, r.pos, m, fmt.Sprintf("stored as the zero-extended %d-bit unsigned value", e.widthBits(r)),
+			why+": the formatter writes the low "+fmt.Sprint(e.widthBits(r))+" bits of the number and every value in [0, 2^"+fmt.Sprint(e.widthBits(r))+") is within the layout's width, but values with the top bit set read back as huge/negative numbers (sizes fail with `invalid negative read size`, partitions/offsets come back negative)")
+	}
+	c.Floor("zero-extend", nz, 12)
 	// aliases of one writer clause map to one reader class
 	byClause := map[int][]string{}
 	for nme, ci := range wclause {
@@ -366,6 +387,25 @@ func (e *c20env) writerClass(fn *types.Func) *c20w {
 			if b, okc := constInt(info, call.Args[2]); okc && b == 16 && isU(call.Args[1]) {
 				w.kind = "varhex"
 				return w
+			}
+		}
+		// delegation to a width-parameterised helper: return H(b, n, K)
+		if cf.Pkg() != nil && cf.Pkg().Name() == "kgo" && len(call.Args) == 3 && c19objOf(info, call.Args[1]) == nParam {
+			if k, okc := constInt(info, call.Args[2]); okc && k > 0 && k <= 16 {
+				if h := e.m.Func(keyOfObj(cf)); h != nil {
+					e.c.Touch(h)
+					kind, viol, why := e.hexHelper(h)
+					switch {
+					case viol:
+						w.viol = "fixed-width helper " + cf.Name() + ": " + why
+						w.kind, w.n, w.order = "hex", int(k), "big"
+					case kind == "hex":
+						w.kind, w.n, w.order = "hex", int(k), "big"
+					default:
+						w.err = "helper " + cf.Name() + " not classified: " + why
+					}
+					return w
+				}
 			}
 		}
 		w.err = "unrecognised call " + exprStr(call.Fun)
@@ -495,7 +535,23 @@ func (e *c20env) readerClass(f *Func, cc *ast.CaseClause) *c20r {
 				calls = append(calls, k)
 				if (k == "strconv.ParseUint" || k == "strconv.ParseInt") && len(n.Args) == 3 {
 					base, _ = constInt(info, n.Args[1])
+					r.parseBits, _ = constInt(info, n.Args[2])
 					r.signed = k == "strconv.ParseInt"
+				}
+			}
+		case *ast.AssignStmt:
+			for i, l := range n.Lhs {
+				st, ok := unparen(l).(*ast.StarExpr)
+				if !ok {
+					continue
+				}
+				if b, ok := info.TypeOf(st).Underlying().(*types.Basic); !ok || b.Kind() != types.Uint64 {
+					continue
+				}
+				if len(n.Rhs) == len(n.Lhs) {
+					r.stores = append(r.stores, n.Rhs[i])
+				} else {
+					r.stores = append(r.stores, n.Rhs[0])
 				}
 			}
 		case *ast.IndexExpr:
@@ -606,4 +662,219 @@ func (e *c20env) readerClass(f *Func, cc *ast.CaseClause) *c20r {
 		r.err = "readKind field " + field
 	}
 	return r
+}
+
+func (e *c20env) widthBits(r *c20r) int {
+	if r.kind == "hex" {
+		return 4 * r.n
+	}
+	return 8 * r.n
+}
+
+func c20uintBits(t types.Type) (bits int, unsigned, isInt bool) {
+	b, ok := t.Underlying().(*types.Basic)
+	if !ok || b.Info()&types.IsInteger == 0 {
+		return 0, false, false
+	}
+	switch b.Kind() {
+	case types.Int8, types.Uint8:
+		bits = 8
+	case types.Int16, types.Uint16:
+		bits = 16
+	case types.Int32, types.Uint32, types.Int, types.Uint, types.Uintptr: // int/uint are 32 bits on 386
+		bits = 32
+	case types.Int64, types.Uint64:
+		bits = 64
+	}
+	return bits, b.Info()&types.IsUnsigned != 0, true
+}
+
+// zeroExtended checks that a fixed-width parser stores the unsigned decode of
+// exactly the layout's width, widened to uint64 only through unsigned types
+// at least as wide as the layout.  Returns "" or the reason.
+func (e *c20env) zeroExtended(r *c20r) string {
+	info := e.info
+	if len(r.stores) != 1 {
+		return fmt.Sprintf("the parser stores the number %d times", len(r.stores))
+	}
+	width := e.widthBits(r)
+	x := unparen(r.stores[0])
+	if r.kind == "hex" {
+		if r.signed {
+			return "hex digits are parsed with the signed strconv.ParseInt (a value with the top bit set is out of range)"
+		}
+		call, ok := x.(*ast.CallExpr)
+		if !ok {
+			return "hex value is not stored directly from strconv.ParseUint"
+		}
+		fn, _ := calleeObj(info, call).(*types.Func)
+		if fn == nil || keyOfObj(fn) != "strconv.ParseUint" {
+			return "hex digits are parsed with `" + exprStr(call.Fun) + "`, not the unsigned strconv.ParseUint (a value with the top bit set is out of range for a signed parse)"
+		}
+		if r.parseBits < int64(width) {
+			return fmt.Sprintf("ParseUint bit size %d is smaller than the %d bits of the layout", r.parseBits, width)
+		}
+		return ""
+	}
+	for {
+		call, ok := x.(*ast.CallExpr)
+		if !ok || len(call.Args) != 1 {
+			break
+		}
+		tv, ok := info.Types[call.Fun]
+		if !ok || !tv.IsType() {
+			break
+		}
+		bits, unsigned, isInt := c20uintBits(tv.Type)
+		if !isInt {
+			return "conversion to non-integer type " + tv.Type.String()
+		}
+		if !unsigned {
+			return "`" + exprStr(call) + "` converts the decoded value to the signed type " + tv.Type.String() + " before it is widened (sign extension)"
+		}
+		if bits < width {
+			return fmt.Sprintf("`%s` narrows the decoded value to %d bits", exprStr(call), bits)
+		}
+		x = unparen(call.Args[0])
+	}
+	switch d := x.(type) {
+	case *ast.IndexExpr:
+		bits, unsigned, isInt := c20uintBits(info.TypeOf(d))
+		if isInt && unsigned && bits == width {
+			return ""
+		}
+	case *ast.CallExpr:
+		if fn, _ := calleeObj(info, d).(*types.Func); fn != nil {
+			if req, ok := lenRequiringCalls[keyOfObj(fn)]; ok && int(req)*8 == width && strings.Contains(fn.Name(), "Uint") && !strings.HasPrefix(fn.Name(), "Put") {
+				return ""
+			}
+		}
+	}
+	return "the stored value `" + exprStr(r.stores[0]) + "` is not a plain unsigned decode of the layout's width (arithmetic or another decoder in between)"
+}
+
+// hexHelper classifies a helper  func H(b []byte, n int64, digits int) []byte
+// of the shape
+//
+//	u := uint64(n) & (1<<(4*uint(digits)) - 1)
+//	for pad := digits - SIG; pad > 0; pad-- { b = append(b, '0') }
+//	return strconv.AppendUint(b, u, 16)
+//
+// strconv.AppendUint emits max(1, ceil(bitlen(u)/4)) digits, so the total is
+// exactly `digits` for every u (including 0) iff SIG is
+// max(1, (bits.Len64(u)+3)/4).  With the unclamped SIG = (bits.Len64(u)+3)/4
+// the value 0 is written with digits+1 characters: a decided violation.
+// Other shapes are not classified.
+func (e *c20env) hexHelper(h *Func) (kind string, viol bool, why string) {
+	info := h.Info()
+	var ps []types.Object
+	for _, fl := range h.Decl.Type.Params.List {
+		for _, id := range fl.Names {
+			ps = append(ps, info.Defs[id])
+		}
+	}
+	body := h.Decl.Body.List
+	if len(ps) != 3 || len(body) != 3 {
+		return "", false, "expected `u := masked n; pad loop; return strconv.AppendUint(b, u, 16)`"
+	}
+	nP, dP := ps[1], ps[2]
+	// u := uint64(n) & (1<<(4*uint(digits)) - 1)
+	as, ok := body[0].(*ast.AssignStmt)
+	if !ok || len(as.Lhs) != 1 || len(as.Rhs) != 1 {
+		return "", false, "first statement is not the masked value"
+	}
+	u := c19objOf(info, as.Lhs[0])
+	and, ok := unparen(as.Rhs[0]).(*ast.BinaryExpr)
+	if !ok || and.Op != token.AND || c19objOf(info, c19strip(info, and.X)) != nP {
+		return "", false, "value is not uint64(n) & mask"
+	}
+	mask := nosp(exprStr(and.Y))
+	d := dP.Name()
+	if mask != "(1<<(4*uint("+d+"))-1)" && mask != "1<<(4*uint("+d+"))-1" && mask != "(1<<(4*uint64("+d+"))-1)" && mask != "(1<<uint(4*"+d+")-1)" {
+		return "", false, "mask `" + exprStr(and.Y) + "` is not 1<<(4*digits) - 1"
+	}
+	// return strconv.AppendUint(b, u, 16)
+	rs, ok := body[2].(*ast.ReturnStmt)
+	if !ok || len(rs.Results) != 1 {
+		return "", false, "no final return"
+	}
+	ac, ok := unparen(rs.Results[0]).(*ast.CallExpr)
+	if !ok || len(ac.Args) != 3 {
+		return "", false, "final return is not strconv.AppendUint(b, u, 16)"
+	}
+	if fn, _ := calleeObj(info, ac).(*types.Func); fn == nil || keyOfObj(fn) != "strconv.AppendUint" || c19objOf(info, ac.Args[0]) != ps[0] || c19objOf(info, ac.Args[1]) != u {
+		return "", false, "final return is not strconv.AppendUint(b, u, 16)"
+	}
+	if base, okc := constInt(info, ac.Args[2]); !okc || base != 16 {
+		return "", false, "AppendUint base is not 16"
+	}
+	// pad loop
+	fs, ok := body[1].(*ast.ForStmt)
+	if !ok || fs.Init == nil || fs.Cond == nil || fs.Post == nil || len(fs.Body.List) != 1 {
+		return "", false, "second statement is not the padding loop"
+	}
+	init, ok := fs.Init.(*ast.AssignStmt)
+	if !ok || len(init.Lhs) != 1 || len(init.Rhs) != 1 {
+		return "", false, "padding loop init"
+	}
+	pad := c19objOf(info, init.Lhs[0])
+	cond, ok := unparen(fs.Cond).(*ast.BinaryExpr)
+	post, ok2 := fs.Post.(*ast.IncDecStmt)
+	if !ok || !ok2 || cond.Op != token.GTR || c19objOf(info, cond.X) != pad || post.Tok != token.DEC || c19objOf(info, post.X) != pad {
+		return "", false, "padding loop is not `for pad := ..; pad > 0; pad--`"
+	}
+	if z, okc := constInt(info, cond.Y); !okc || z != 0 {
+		return "", false, "padding loop bound"
+	}
+	ba, ok := fs.Body.List[0].(*ast.AssignStmt)
+	if !ok || len(ba.Rhs) != 1 || c19objOf(info, ba.Lhs[0]) != ps[0] {
+		return "", false, "padding loop body is not b = append(b, '0')"
+	}
+	ap, ok := unparen(ba.Rhs[0]).(*ast.CallExpr)
+	if !ok || exprStr(ap.Fun) != "append" || len(ap.Args) != 2 || c19objOf(info, ap.Args[0]) != ps[0] {
+		return "", false, "padding loop body is not b = append(b, '0')"
+	}
+	if z, okc := constInt(info, ap.Args[1]); !okc || z != '0' {
+		return "", false, "padding character is not '0'"
+	}
+	sub, ok := unparen(init.Rhs[0]).(*ast.BinaryExpr)
+	if !ok || sub.Op != token.SUB || c19objOf(info, sub.X) != dP {
+		return "", false, "pad count is not digits - significant digits"
+	}
+	sigOf := func(x ast.Expr) bool { // (bits.Len64(u)+3)/4
+		q, ok := unparen(x).(*ast.BinaryExpr)
+		if !ok || q.Op != token.QUO {
+			return false
+		}
+		if v, okc := constInt(info, q.Y); !okc || v != 4 {
+			return false
+		}
+		a, ok := unparen(q.X).(*ast.BinaryExpr)
+		if !ok || a.Op != token.ADD {
+			return false
+		}
+		if v, okc := constInt(info, a.Y); !okc || v != 3 {
+			return false
+		}
+		lc, ok := unparen(a.X).(*ast.CallExpr)
+		if !ok || len(lc.Args) != 1 || c19objOf(info, lc.Args[0]) != u {
+			return false
+		}
+		fn, _ := calleeObj(info, lc).(*types.Func)
+		return fn != nil && keyOfObj(fn) == "bits.Len64"
+	}
+	sig := unparen(sub.Y)
+	if sigOf(sig) {
+		return "hex", true, "the pad count `" + exprStr(init.Rhs[0]) + "` counts 0 significant digits for the value 0, but strconv.AppendUint still writes one digit: the field is digits+1 characters wide for 0 and every following field is shifted (the reader consumes exactly digits characters)"
+	}
+	if mc, ok := sig.(*ast.CallExpr); ok && exprStr(mc.Fun) == "max" && len(mc.Args) == 2 {
+		if _, isB := info.Uses[mc.Fun.(*ast.Ident)].(*types.Builtin); isB {
+			for i := 0; i < 2; i++ {
+				if v, okc := constInt(info, mc.Args[i]); okc && v == 1 && sigOf(mc.Args[1-i]) {
+					return "hex", false, ""
+				}
+			}
+		}
+	}
+	return "", false, "significant digit count `" + exprStr(sub.Y) + "` not recognised"
 }
